@@ -734,3 +734,164 @@ def inject_panic(body, rng, ctr):
         site = ("if", rng.choice(["g3", "a > b", "b%2 == 0"]), [site], None)
     lst.insert(i, site)
     return body
+
+
+# ---------------------------------------------------------------------------------------------
+# C05: delegation
+
+C05_HELPERS = """func H1(x int) (_ Iter[int]) {
+	for i := 0; i < 3; i++ {
+		rt.Emit(rt.EFF, 700+i)
+		Yield(x + 1000*(i+1))
+	}
+	rt.Emit(rt.EFF, 709)
+	return
+}
+
+func H2(x int) (_ Iter[int]) {
+	rt.Emit(rt.EFF, 710)
+	Yield(x + 1)
+	rt.Emit(rt.EFF, 711)
+	Yield(x + 2)
+	return
+}
+
+func H3(x int) (_ Iter[int]) {
+	rt.Emit(rt.EFF, 720)
+	if x != x {
+		Yield(0)
+	}
+	return
+}
+
+func H4(x int) (_ Iter[int]) {
+	Yield(x + 5)
+	YieldFrom(H2(x + 10))
+	rt.Emit(rt.EFF, 730)
+	YieldFrom(H3(x))
+	Yield(x + 6)
+	return
+}
+
+func R1(d, x int) (_ Iter[int]) {
+	rt.Emit(rt.EFF, 740)
+	if d <= 0 {
+		return
+	}
+	Yield(x + d)
+	YieldFrom(R1(d-1, x+100))
+	Yield(x - d)
+	return
+}
+
+func R2(x int) Iter[int] {
+	for {
+		Yield(x)
+		x++
+	}
+}
+"""
+
+DELEGATES = ["H1(a)", "H2(b)", "H3(a)", "H4(a)", "R1(n, a)", "R2(a)", "H2(a + 7)", "rt.Eff(801, H2(a))", "rt.Eff(802, H1(b))"]
+
+
+class YFSampler(Sampler):
+    def __init__(self, rng, max_depth=4):
+        w = {"E": 3, "Y": 3, "YF": 6, "IF": 3, "IFE": 2, "FOR": 3, "INF": 1, "WHILE": 1, "SW": 1, "SWD": 2, "BLK": 1, "BRK": 1, "CNT": 1,
+             "RET": 1, "DECL": 1, "ASSIGN": 1, "YFPOST": 1, "YFADV": 2}
+        super().__init__(rng, w, max_depth)
+
+    def stmt(self, budget, ctr, loopvars, in_loop, in_switch, depth, scope):
+        rng = self.rng
+        # decide among the delegation forms with the weights above
+        total = sum(self.w.values())
+        r = rng.random() * total
+        if r < self.w["YF"]:
+            budget[0] -= 1
+            return [("yieldfrom", rng.choice(DELEGATES))]
+        r -= self.w["YF"]
+        if r < self.w["YFADV"]:
+            budget[0] -= 1
+            ctr.v += 1
+            v = "it%d" % ctr.v
+            k = rng.randint(1, 2)
+            adv = "\n".join("%s.MoveNext()" % v for _ in range(k))
+            return [("raw", "%s := %s\n%s" % (v, rng.choice(DELEGATES[:5]), adv)), ("yieldfrom", v)]
+        r -= self.w["YFADV"]
+        if r < self.w["YFPOST"] and depth < self.max_depth and budget[0] >= 2:
+            budget[0] -= 1
+            ctr.v += 1
+            v = "i%d" % ctr.v
+            body = self.body(budget, ctr, loopvars + [v], True, False, depth + 1, list(scope)) or [("eff", ctr.eff())]
+            # no continue in a loop with a yielding post (known finding F6)
+            body = strip_continue(body)
+            return [("decl", v, "0"), ("for", ("yieldfrom", "H2(%s)" % v) if rng.random() < 0.4 else None, "%s < n" % v, ("yieldfrom", "H2(%s + 50)" % v), [("inc", v)] + body)]
+        return super().stmt(budget, ctr, loopvars, in_loop, in_switch, depth, scope)
+
+
+def strip_continue(body):
+    out = []
+    for s in body:
+        k = s[0]
+        if k == "continue":
+            out.append(("eff", 999))
+        elif k == "if":
+            out.append(("if", s[1], strip_continue(s[2]), strip_continue(s[3]) if s[3] is not None else None))
+        elif k == "block":
+            out.append(("block", strip_continue(s[1])))
+        elif k == "switch":
+            out.append(("switch", s[1], s[2], [(v, strip_continue(b)) for v, b in s[3]], strip_continue(s[4]) if s[4] is not None else None))
+        else:
+            out.append(s)  # nested loops own their continues
+    return out
+
+
+def to_range_form(body, ctr):
+    """replace every YieldFrom statement by 'for v := range x { Yield(v) }' (statement positions
+    only; for-init/post keep YieldFrom)"""
+    out = []
+    for s in body:
+        k = s[0]
+        if k == "yieldfrom":
+            ctr.v += 1
+            v = "rv%d" % ctr.v
+            out.append(("range", v, None, ":=", s[1], [("yield", v)]))
+        elif k == "if":
+            out.append(("if", s[1], to_range_form(s[2], ctr), to_range_form(s[3], ctr) if s[3] is not None else None))
+        elif k == "block":
+            out.append(("block", to_range_form(s[1], ctr)))
+        elif k == "switch":
+            out.append(("switch", s[1], s[2], [(v, to_range_form(b, ctr)) for v, b in s[3]], to_range_form(s[4], ctr) if s[4] is not None else None))
+        elif k == "for":
+            out.append(("for", s[1], s[2], s[3], to_range_form(s[4], ctr)))
+        else:
+            out.append(s)
+    return out
+
+
+def eq_driver(name, name2, K, nlo=-1, nhi=3):
+    return """func DriveEq_%(name)s() {
+	a, b, n := rt.NondetInt(1), rt.NondetInt(2), rt.NondetInt(3)
+	g1, g2, g3 := rt.NondetBool(4), rt.NondetBool(5), rt.NondetBool(6)
+	rt.Assume(n >= %(nlo)d && n <= %(nhi)d)
+	for w := 0; w < 2; w++ {
+		rt.SetLog(w)
+		it := %(name)s(a, b, n, g1, g2, g3)
+		if w == 1 {
+			it = %(name2)s(a, b, n, g1, g2, g3)
+		}
+		rt.Emit(rt.CREATED, 0)
+		for k := 0; k < %(K)d; k++ {
+			rt.Emit(rt.ADV_BEGIN, k)
+			if !it.MoveNext() {
+				rt.Emit(rt.ADV_END, 0)
+				break
+			}
+			rt.Emit(rt.ADV_END, 1)
+			rt.Emit(rt.YIELD, it.Current())
+		}
+		rt.Emit(rt.END, 0)
+	}
+	rt.SetLog(0)
+	rt.AssertSameLogs(0, 1, 500)
+}""" % {"name": name, "name2": name2, "K": K, "nlo": nlo, "nhi": nhi}
